@@ -1,4 +1,7 @@
 SPECIFICATION Spec
+CONSTANT NbK = 2
+CONSTANT SampleN = 3000
+CONSTANT InitVectors <- MCInitVectors
 INVARIANT TypeOK
 INVARIANT Progress
 INVARIANT M_NoPanic
